@@ -52,16 +52,16 @@ check('C04', 'model_checking',
       'Momentum read from xd_i (COM velocities); tolerance is the round-off scale of the sum. Rest failures of mixed hinge/slide stacks other than S..SH in spring/positional are a listed known finding.',
       'exhaustive expansion of the control-word tree on the real step function, invariant checked at every state', 'DESIGN.md 4/C04')
 check('C03', 'exploration',
-      'Models with orthogonal stacked axes x three pipelines x n in {1,2} (5 in thorough) steps: jax.grad of a fixed weighted sum of link positions/velocities and joint state w.r.t. (q, qd, ctrl) must be finite on the singular set (qd=0, q=0, each coordinate at 0, axis-aligned root rotations, coincident anchors, ctrl on a bound) and equal the central difference on seeded regular points.',
-      'Finite differences (h=1e-6, float64) are a numerical oracle with band 1e-4(1+|g|); mixed hinge/slide stacks are exercised on the generalized pipeline only.',
+      'Models with orthogonal stacked axes x three pipelines x n in {1,2} (5 in thorough) steps: jax.grad of a fixed weighted sum of link positions/velocities and joint state w.r.t. (q, qd, ctrl) must be finite on the singular set (qd=0, q=0, each coordinate at 0, axis-aligned root rotations, coincident anchors, ctrl on a bound) and equal the central difference on seeded regular points, incl. a point where every joint limit is active during the whole rollout.',
+      'Finite differences are a numerical oracle with band 1e-4(1+|g|); a coordinate is compared only where central differences at h=1e-5,1e-6,1e-7 agree (smooth at the stencil scale; counts in the evidence); mixed hinge/slide stacks are exercised on the generalized pipeline only.',
       'bounded enumeration of models x singular/regular input sets, finite-difference oracle', 'DESIGN.md 4/C03')
 check('C05', 'exploration',
       'Equivariance step(g.s) = g.step(s) for every free-rooted contact-free skeleton (<= 3 links) x states x group alphabet (cube rotations + generic rotations x translations) x 1 and 5 steps x 3 pipelines; every permutation of every sibling group; every ordered pair of a model sub-alphabet merged into one document vs alone.',
       'Tolerance 1e-8 (1 step) / 1e-6 (5 steps); reported joint coordinates at 10x (arccos conditioning); diverging runs counted, not compared.',
       'small-scope exhaustive enumeration of models x group elements / permutations / pairs, differential oracle', 'DESIGN.md 4/C05')
 check('C06', 'model_checking',
-      'Inert contacts / limits: three variants of every model skeleton differ only in collidable-but-separated geometry or unreached limits and must give identical single steps (unit quaternions everywhere); push-only over shapes x orientations x densities x depths x gravity; every step of 3 s resting histories over a size x density x height lattice; rebound ratios over radius x elasticity x height (spring, positional).',
-      'Thresholds: 5 cm / 5 mm resting, rebound margins from the property. Push-only is judged on the contact contribution relative to free fall. Positional velocity over-correction of tilted non-spherical bodies is a listed known finding.',
+      'Inert contacts / limits: variants of every model skeleton differ only in collidable-but-separated geometry (ground 3 cm below the lowest geom point as measured by MuJoCo, 5 cm contact margin) or unreached limits (symmetric, and ranges excluding zero) and must give identical single steps (unit quaternions everywhere); push-only over shapes x orientations x densities x depths x gravity; every step of 3 s resting histories over a size x density x height lattice; rebound ratios over radius x elasticity x height (spring, positional).',
+      'Thresholds: 5 cm / 5 mm resting, rebound margins from the property. Push-only is judged on the contact contribution relative to free fall. Positional velocity over-correction of tilted non-spherical bodies, limits on non-orthogonal stacks (spring/positional) and on left-handed three-hinge stacks (positional) are listed known findings.',
       'exhaustive enumeration of scene lattices with per-step invariants on real pipeline histories; differential oracle for inertness', 'DESIGN.md 4/C06')
 check('C07', 'exploration',
       'vmap vs solo for 8 models x 3 pipelines x batch sizes 2,3,8 with ALL ordered pairs of an 8-state alphabet (bitwise independence of a member from its neighbour inside one executable); jit vs eager; all 64 termination schedules as members of the wrapped scripted env in three member orders vs solo; DomainRandomizationVmapWrapper members vs solo envs built from the member system.',
@@ -76,6 +76,6 @@ check('C12', 'model_checking',
       'Energy computed by the harness from mass_mx and COM positions; momentum as (M qd) on root translations; runs meeting near-singular inertia (cond>1e5) or |qd|>50 are counted, not compared; thresholds 0.9 / 0.25 of the drift envelope.',
       'bounded enumeration of models x initial states, step-size refinement histories with extrapolation oracle', 'DESIGN.md 4/C12')
 check('C16', 'model_checking',
-      'Every registered physics env x every backend its constructor accepts x reset keys x the full action-word tree over a 5-letter alphabet (all words as batch members through training.wrap): contract (observation/action size, done=0 after reset, bitwise determinism of reset and of the whole rollout) and finiteness + unit quaternions at every step of every word. float32 on purpose.',
+      'Every registered physics env x every backend its constructor accepts x reset keys x the full action-word tree over a 5-letter alphabet plus 32 (144 thorough) fast seeded bang-bang members (all as batch members through training.wrap): contract (observation/action size, done=0 after reset, bitwise determinism of reset and of the whole rollout) and finiteness + unit quaternions at every step of every word. float32 on purpose.',
       'Finite key set and action alphabet; swimmer step TypeError is a listed known finding.',
       'exhaustive expansion of the action-word tree on the real wrapped environments, invariant checked at every step', 'DESIGN.md 4/C16')
